@@ -65,7 +65,7 @@ def program_for(kind, rnd):
         return ("asm", rnd.choice(CYCLE), 5.0)
     if kind == "interrupted":
         if rnd.random() < 0.6:
-            return ("asm", rnd.choice(HANGING), 0.5)
+            return ("asm", rnd.choice(HANGING), 0.3)
         return ("asm", SLOW, rnd.choice([0.002, 0.01, 0.03]))
     if kind == "deep":
         return ("asm", deep_chain(rnd.choice([30, 45, 58]), rnd.random() < 0.5), 10.0)
